@@ -269,7 +269,7 @@ def check_obligations(eng, pc, ob, prefixes, res, mk_viol):
     remaining = list(mine)
     while remaining:
         neg = z3.Not(z3.And(*[f for (_, f) in remaining]))
-        t0 = time.time(); r = sv.check(*(pc + [neg])); res['solver_time'] += time.time() - t0
+        t0 = time.time(); r = eng.check(pc + [neg]); res['solver_time'] += time.time() - t0
         res['assert_queries'] += 1
         if res.get('export_smt2', 0) > len(res['smt2']):
             res['smt2'].append(harness.export_smt2(sv, pc + [neg], 'sat' if r == z3.sat else 'unsat'))
@@ -340,9 +340,9 @@ def run_iter_job(prog, job):
         if fin is True:
             res['nontrivial'] += 1 if len(seq) >= 2 else 0
             for k_, f in sit.items():
-                if not cov[k_] and eng.solver.check(*(s.pc + [f])) == z3.sat: cov[k_] = True
+                if not cov[k_] and eng.check(s.pc + [f]) == z3.sat: cov[k_] = True
         if len(res['samples']) < 2:
-            if s.model is None and eng.solver.check(*s.pc) == z3.sat: s.model = eng.solver.model()
+            if s.model is None and eng.check(list(s.pc)) == z3.sat: s.model = eng.solver.model()
             if s.model is not None:
                 res['samples'].append({'iterator': name, 'N': N, 'x': s.model.eval(ic.x, model_completion=True).as_long(), 'yielded': len(seq),
                                        'pre': ic.A.model_dict(s.model)})
@@ -357,7 +357,7 @@ def run_iter_job(prog, job):
 def iter_viol(ic, name, s, m, failed, k=None):
     if m is None:
         m = None
-        if ic.eng.solver.check(*s.pc) == z3.sat: m = ic.eng.solver.model()
+        if ic.eng.check(list(s.pc)) == z3.sat: m = ic.eng.solver.model()
     return {'kind': 'iter', 'checks': failed, 'op': name, 'N': ic.N, 'cfg': 'dev', 'outcome': 'yielded %s' % k,
             'args': {'x': m.eval(ic.x, model_completion=True).as_long()} if m is not None else {},
             'pre': ic.A.model_dict(m) if m is not None else None, 'role': 'iter'}
@@ -452,7 +452,7 @@ def run_de_job(prog, job):
         F = [id_terms(v) for v in fseq]
         k = len(F)
         for k_, f in sit.items():
-            if not cov[k_] and eng.solver.check(*(s.pc + [f])) == z3.sat: cov[k_] = True
+            if not cov[k_] and eng.check(s.pc + [f]) == z3.sat: cov[k_] = True
         for pat in all_patterns(k + 2):
             # fresh iterator in the same (now constrained) state
             ctor = find_fn(prog, 'NodeId', name)
@@ -483,7 +483,7 @@ def run_de_job(prog, job):
                             ob.append(('C10.%s.none_after_exhaustion[%s@%d]' % (name, pat, j), z3.BoolVal(got is None)))
                     res['nontrivial'] += 1 if (k >= 2 and 'f' in pat[:k] and 'b' in pat[:k]) else 0
                 if len(res['samples']) < 2 and k >= 2:
-                    if s3.model is None and eng.solver.check(*s3.pc) == z3.sat: s3.model = eng.solver.model()
+                    if s3.model is None and eng.check(list(s3.pc)) == z3.sat: s3.model = eng.solver.model()
                     if s3.model is not None:
                         res['samples'].append({'iterator': name, 'N': N, 'x': s3.model.eval(ic.x, model_completion=True).as_long(), 'forward_len': k, 'pulls': pat,
                                                'pre': ic.A.model_dict(s3.model)})
